@@ -126,7 +126,8 @@ class PathOut:
     exception:   expected exception type name on this path, if the real call raised
     """
 
-    def __init__(self, obligations=(), sym_out=None, witness=None, exc=None, desc=None):
+    def __init__(self, obligations=(), sym_out=None, witness=None, exc=None, desc=None, prefer=()):
+        self.prefer = list(prefer)     # soft constraints for the witness model (stay away from float-fragile ties)
         self.obligations = list(obligations)
         self.sym_out = sym_out or {}
         self.witness = witness
@@ -196,6 +197,8 @@ def run_job(spec):
                 res['inconclusive'].append('path feasibility: %s' % e)
                 continue
             res['feasible_paths'] += 1
+            if po.prefer:
+                model0 = preferred_model(ctx, po.prefer, model0)
             # --- obligations ---------------------------------------------------------
             for label, prop in po.obligations:
                 res['obligations'] += 1
@@ -260,6 +263,47 @@ def run_job(spec):
         signal.setitimer(signal.ITIMER_REAL, 0)
     res['wall_s'] = time.time() - t0
     return res
+
+
+def preferred_model(ctx, prefer, fallback):
+    """A model of the path condition that also satisfies as many of the soft constraints as possible
+    (greedy).  Only used to pick witnesses that are robust against float rounding."""
+    s = ctx.solver
+    s.push()
+    try:
+        for d in ctx.refine:
+            s.add(d)
+        model = fallback
+        cs = [c for c in (core._b(c) for c in prefer) if not isinstance(c, bool)]
+        s.push()
+        s.add(*cs) if cs else None
+        r = s.check()
+        ctx.stats['queries'] += 1
+        if r == z3.sat:
+            return s.model()
+        s.pop()
+        for c in prefer:
+            c = core._b(c)
+            if isinstance(c, bool):
+                continue
+            s.push()
+            s.add(c)
+            r = s.check()
+            ctx.stats['queries'] += 1
+            if r == z3.sat:
+                model = s.model()       # keep the constraint (leave the push in place)
+            else:
+                s.pop()
+                s.push()                # balance
+        return model
+    finally:
+        # pop everything pushed above
+        while s.num_scopes() > ctx_scopes(ctx):
+            s.pop()
+
+
+def ctx_scopes(ctx):
+    return getattr(ctx, '_base_scopes', 0)
 
 
 def confirm(spec, po, label, model):
